@@ -64,6 +64,10 @@ def enumerate_cases(tier):
             for en in ("EIO", "ETIMEDOUT"):
                 yield {"family": "flaky-stream", "judge_residue": True, "cfg": {"algo": algo, "depth": 2, "width": 2},
                        "contents": [{"pat": "f1a2", "n": 6 * 4096 + 7}], "fail_at": fail_at, "errno": en, "ops": []}
+                # ... and so is a store_metadata whose source stream breaks (new document / overwrite of an existing one)
+                for via in ("store_metadata", "store_metadata-overwrite"):
+                    yield {"family": "flaky-stream", "judge_residue": True, "cfg": {"algo": algo, "depth": 2, "width": 2}, "via": via,
+                           "contents": [{"pat": "f1a2", "n": 6 * 4096 + 7}], "fail_at": fail_at, "errno": en, "ops": []}
 
 
 @st.composite
